@@ -156,6 +156,16 @@ func init() {
 			if err := json.Unmarshal(sc.Bytes(), &in); err != nil {
 				continue
 			}
+			if len(args) > 0 && args[0] == "threshold-first" {
+				// the very first scanner of this process is created with an explicit threshold: whatever the package
+				// initialises lazily must be ready for it as well
+				s, err := security.NewScannerWithSeverity(security.SeverityLow)
+				if err != nil {
+					panic(err)
+				}
+				emitJSON(toRun(s.ScanSQL(in.SQL)))
+				continue
+			}
 			emitJSON(toRun(security.NewScanner().ScanSQL(in.SQL)))
 		}
 		return 0
